@@ -433,11 +433,24 @@ fn has_attr_eq_gt(input: &[u8]) -> bool {
 }
 
 /// does the input end inside a tag (after the last `<` there is no `>`)?
+/// Does the input end inside a tag that never finishes? Decided by the full lexer itself (non-strict,
+/// every token captured, one write): the bytes after the last token it produced start an unfinished
+/// `<name` / `</name` (the last `<` of the input may well sit inside that tag's attribute value).
 fn in_unfinished_tag(input: &[u8]) -> bool {
-    match input.iter().rposition(|&b| b == b'<') {
-        Some(p) => !input[p..].contains(&b'>'),
-        None => false,
+    let full = run_cfg(input, &[], false, 31, &[], true);
+    let mut last_end = 0usize;
+    for ev in &full.log {
+        // token events carry `<kind>:<start>-<end>:...`
+        if let Some(range) = ev.split(':').nth(1) {
+            if let Some((_, e)) = range.split_once('-') {
+                if let Ok(e) = e.parse::<usize>() {
+                    last_end = last_end.max(e);
+                }
+            }
+        }
     }
+    let rest = &input[last_end.min(input.len())..];
+    rest.len() >= 2 && rest[0] == b'<' && (rest[1].is_ascii_alphabetic() || (rest[1] == b'/' && rest.len() >= 3 && rest[2].is_ascii_alphabetic()))
 }
 
 /// C06 oracle: schedule S against S ∪ O for observer sets O (extra flags at every tag event).
